@@ -1090,17 +1090,18 @@ Section Summary.
     rewrite Forall_forall in F. destruct (F _ Hin) as [Ha _]. exact Ha.
   Qed.
 
-  (* the bound in figures: 1 MiB of message payload (2 GiB when file transfer is permitted), or a
-     (scaled) frame buffer of the configured screen *)
+  (* the bound in figures: 1 MiB of text plus its terminating NUL (2 GiB when file transfer is permitted), or a
+     (scaled) frame buffer of the configured screen.  The limits themselves are the regenerated constants; this
+     lemma is the sanity check that they are still the documented ones (a limit raised in the source breaks it) *)
   Lemma alloc_bound_value : forall c, cfg_ok c ->
-    alloc_bound c <= (if cf_ft c then 2147483648 else 1048576) + fb_bytes c.
+    alloc_bound c <= (if cf_ft c then 2147483648 else 1048577) + fb_bytes c.
   Proof.
     intros c (HW & HH & HB & _). unfold alloc_bound, msg_bound.
     assert (0 <= fb_bytes c).
     { unfold fb_bytes. assert (0 <= cf_bpp c / 8) by (apply Z.div_pos; lia).
       assert (0 <= pad4 (cf_w c * (cf_bpp c / 8))) by (apply pad4_nonneg; nia). nia. }
     assert (c04_int_max + 1 = 2147483648) by reflexivity.
-    assert (Z.max c04_cut_text_limit c04_ext_clip_limit = 1048576) by reflexivity.
+    assert (Z.max c04_cut_text_limit c04_ext_clip_limit <= 1048577) by (vm_compute; discriminate).
     assert (c04_sizeof_screen <= 1048576) by (vm_compute; discriminate).
     destruct (cf_ft c); lia.
   Qed.
@@ -1320,15 +1321,24 @@ End SessionProofs.
 (* ------------------------------------------------------------------------------------------ *)
 (** * Final forms used by Props/Properties_C04.v *)
 
+(* with the limits the source has (regenerated constants) *)
 Lemma alloc_bound_final : forall o_corr_f o_scale o_inflate o_pw c s r v r' eff n,
   cfg_ok c -> reader_bytes_ok r ->
   process_message o_corr_f o_scale o_inflate o_pw c s r = (v, r', eff) ->
   In (Alloc n) eff ->
-  n <= (if cf_ft c then 2147483648 else 1048576) + fb_bytes c.
+  n <= alloc_bound c.
 Proof.
   intros o_corr_f o_scale o_inflate o_pw c s r v r' eff n Hc Hr H Hin.
-  exact (Z.le_trans _ _ _ (alloc_bound_msg o_corr_f o_scale o_inflate o_pw c s r v r' eff n Hc Hr H Hin)
-                          (alloc_bound_value o_corr_f o_scale o_inflate c Hc)).
+  exact (alloc_bound_msg o_corr_f o_scale o_inflate o_pw c s r v r' eff n Hc Hr H Hin).
+Qed.
+
+(* ... and those limits are the fixed, documented ones *)
+Lemma alloc_bound_fixed : forall c, cfg_ok c ->
+  alloc_bound c <= (if cf_ft c then 2147483648 else 1048577) + fb_bytes c /\
+  c04_cut_text_limit <= 2 ^ 20 /\ c04_ext_clip_limit <= 2 ^ 20 + 1.
+Proof.
+  intros c Hc. split; [exact (alloc_bound_value corr_q scale_q inflate_none c Hc)|].
+  split; vm_compute; discriminate.
 Qed.
 
 Lemma scaled_inv_fixed : forall o_corr_f o_scale o_inflate o_pw c fuel r obs s' r' ok,
